@@ -1,6 +1,7 @@
 CONSTANTS
  NPal = 16
  MaxLen = 2
+ DecIdx = {2, 3, 5, 7}
  CoefIdx = {2, 4, 6}
 SPECIFICATION Spec
 INVARIANT TypeOK
